@@ -85,7 +85,7 @@ def run_tlc(module, cfg, workers=4, env=None, timeout=600, simulate=None, depth=
     else:
         cmd = ["java", "-XX:+UseParallelGC", "-Xss1g", "-Xmx" + xmx]
     cmd += ["-cp", JAR, "tlc2.TLC", "-workers", str(workers), "-metadir", meta, "-cleanup",
-            "-noGenerateSpecTE", "-config", cfg]
+            "-noGenerateSpecTE", "-checkpoint", "0", "-config", cfg]   # no checkpoints: runs are never resumed, and the depth-first queue (StateDeque) cannot write one (a chunk that runs for 30 min would die)
     if deque:
         cmd += ["-fpmem", "0.05"]
     if coverage and not simulate:
